@@ -1,0 +1,16 @@
+//go:build verif
+
+package sample
+
+import "github.com/cronokirby/saferith"
+
+// PrimeSource, when set, replaces the safe-prime search of Paillier by a supplied pair
+// (simulation only: lets a simulator use pre-generated safe primes). Only compiled with -tags verif.
+var PrimeSource func() (p, q *saferith.Nat)
+
+func primeHook() (p, q *saferith.Nat) {
+	if f := PrimeSource; f != nil {
+		return f()
+	}
+	return nil, nil
+}
